@@ -233,6 +233,29 @@ def collector_rt(opk: int, k1: str, k2: str, slash: bool) -> bool:
     return _seg_eq(got, want)
 
 
+def collector3_rt(k: int, slash: bool) -> bool:
+    """Three collectors in a row (and with a key between): each keeps its own operator."""
+    k = realize(k)
+    o1, k = k % 4, k // 4
+    o2, k = k % 4, k // 4
+    mid = k % 2
+    (s1, op1), (s2, op2) = COLL[o1], COLL[o2]
+    text = ("/" if slash else "") + "(a)" + s1 + "(b)" + (("/x" if slash else ".x") if mid else "") + s2 + "(c)"
+    if mid and s2:
+        return True     # an operator cannot follow a key
+    want = [(T.COLLECTOR, CollectorTerms("a", CollectorOperators.NONE)), (T.COLLECTOR, CollectorTerms("b", op1))]
+    if mid:
+        want.append((T.KEY, "x"))
+    want.append((T.COLLECTOR, CollectorTerms("c", op2)))
+    note(text=text)
+    got = list(YAMLPath(text).unescaped)
+    note(parsed=[(str(t), str(a)) for t, a in got])
+    if not _seg_eq(got, want):
+        return False
+    t = str(YAMLPath(text))
+    return _seg_eq(list(YAMLPath(t).unescaped), want) and (YAMLPath(text) == YAMLPath(t))
+
+
 def wildcard_rt(which: int, slash: bool) -> bool:
     which = realize(which)
     text, want = [
@@ -324,6 +347,9 @@ def shards(tier, seed):
                      [("opk", "int"), ("k1", "str"), ("k2", "str"), ("slash", "bool")],
                      ["0 <= opk < 4", "len(k1) == 1 and len(k2) == 1", "k1 >= 'a' and k1 <= 'b' and k2 >= 'a' and k2 <= 'b'"],
                      family="parse/collector", budget=600, desc="(k1) / (k1)+(k2) / -( ) / &( )"))
+    out.append(shard(PID, "parse/collector3", "harness.c08", "collector3_rt(k, slash)", [("k", "int"), ("slash", "bool")],
+                     ["0 <= k < 32"], family="parse/collector", budget=600, kind="S",
+                     desc="(a) op (b) [key] op (c): every operator pair incl. none"))
     out.append(shard(PID, "canon/wildcard", "harness.c08", "wildcard_rt(which, slash)", [("which", "int"), ("slash", "bool")],
                      ["0 <= which < 5"], family="canon/wildcard", budget=600, kind="S", desc="*, **, prefix*/suffix* expansions"))
     out.append(shard(PID, "equality", "harness.c08", "equality(k1, k2, slash1, slash2)",
